@@ -76,7 +76,10 @@ def check(tier):
         if name.startswith("core"):
             core += cases
     if tier == "quick":
-        core = [c for c in core if c.family == "core"][:: 1]
+        # quick: every rule of core1, every 6th rule of core2xy (the thorough tier injects into all of them)
+        c1 = [c for n, cs, _ in fams if n == "core1" for c in cs]
+        c2 = [c for n, cs, _ in fams if n != "core1" and n.startswith("core") for c in cs]
+        core = c1 + c2[::6]
     inj = []
     for c in core:
         for cls, desc, prog in gen4.inject_defects(c):
